@@ -139,19 +139,39 @@ enum Case {
     /// zero/non-zero pattern of the 8 groups
     V6Pattern(u8),
     Malformed(u8),
+    /// thorough: groups 0..4 fixed by the index (base 3), groups 4..8 swept, each group from {0, 0x1, 0xabcd}
+    V6Shapes(u8),
+    /// thorough: all 65536 values of two adjacent octets (pair position, chunk of 16)
+    MacPairs(u8, u8),
+    V4Pairs(u8, u8),
 }
 
 pub struct P18 {
     cases: Vec<Case>,
 }
 impl P18 {
-    pub fn new(_tier: Tier) -> P18 {
+    pub fn new(tier: Tier) -> P18 {
         let mut cases = vec![Case::MacOctets(false), Case::MacOctets(true), Case::V4Octets(false), Case::V4Octets(true)];
         for p in 0..=255u8 {
             cases.push(Case::V6Pattern(p));
         }
         for k in 0..3u8 {
             cases.push(Case::Malformed(k));
+        }
+        if tier == Tier::Thorough {
+            for k in 0..81u8 {
+                cases.push(Case::V6Shapes(k));
+            }
+            for pos in 0..5u8 {
+                for ch in 0..16u8 {
+                    cases.push(Case::MacPairs(pos, ch));
+                }
+            }
+            for pos in 0..3u8 {
+                for ch in 0..16u8 {
+                    cases.push(Case::V4Pairs(pos, ch));
+                }
+            }
         }
         P18 { cases }
     }
@@ -243,6 +263,9 @@ impl Property for P18 {
             Case::V4Octets(d) => json!({"ipv4": "all 256 values of each octet x 3 backgrounds", "property": if *d { "dst" } else { "src" }}),
             Case::V6Pattern(p) => json!({"ipv6 zero/non-zero group pattern": format!("{:08b}", p), "renderings": "uncompressed and every legal :: placement, lower/upper case, with/without leading zeros"}),
             Case::Malformed(k) => json!({"malformed texts": (["mac", "ipv4", "ipv6"][*k as usize])}),
+            Case::V6Shapes(k) => json!({"ipv6": "every address whose groups are drawn from {0, 0x1, 0xabcd}, every rendering", "first four groups (base-3 index)": k}),
+            Case::MacPairs(pos, ch) => json!({"mac": "all 65536 values of two adjacent octets", "pair": pos, "chunk": ch}),
+            Case::V4Pairs(pos, ch) => json!({"ipv4": "all 65536 values of two adjacent octets", "pair": pos, "chunk": ch}),
         }
     }
     fn run(&self, idx: u64) -> CaseOut {
@@ -340,6 +363,55 @@ impl Property for P18 {
                     }
                     Ok((format!("ipv6 zero-groups={}", 8 - p.count_ones()), n))
                 }
+                Case::V6Shapes(k) => {
+                    let vals = [0u16, 0x1, 0xabcd];
+                    let mut first: Option<String> = None;
+                    for low in 0..81u32 {
+                        let mut groups = [0u16; 8];
+                        let (mut a, mut b) = (k as u32, low);
+                        for i in 0..4 {
+                            groups[i] = vals[(a % 3) as usize];
+                            a /= 3;
+                            groups[4 + i] = vals[(b % 3) as usize];
+                            b /= 3;
+                        }
+                        for (j, t) in v6_renderings(&groups).iter().enumerate() {
+                            if let Err(m) = accept(Kind::V6, j % 2 == 1, t) {
+                                first.get_or_insert(m);
+                            }
+                            n += 1;
+                        }
+                    }
+                    if let Some(m) = first {
+                        return Err(m);
+                    }
+                    Ok(("ipv6 shapes".into(), n))
+                }
+                Case::MacPairs(pos, ch) => {
+                    for hi in (ch as u32 * 16)..(ch as u32 * 16 + 16) {
+                        for lo in 0..256u32 {
+                            let mut o = [0x5Au8; 6];
+                            o[pos as usize] = hi as u8;
+                            o[pos as usize + 1] = lo as u8;
+                            let t: Vec<String> = o.iter().map(|b| format!("{:02x}", b)).collect();
+                            accept(Kind::Mac, false, &t.join(":"))?;
+                            n += 1;
+                        }
+                    }
+                    Ok(("mac pairs".into(), n))
+                }
+                Case::V4Pairs(pos, ch) => {
+                    for hi in (ch as u32 * 16)..(ch as u32 * 16 + 16) {
+                        for lo in 0..256u32 {
+                            let mut o = [90u8; 4];
+                            o[pos as usize] = hi as u8;
+                            o[pos as usize + 1] = lo as u8;
+                            accept(Kind::V4, true, &format!("{}.{}.{}.{}", o[0], o[1], o[2], o[3]))?;
+                            n += 1;
+                        }
+                    }
+                    Ok(("ipv4 pairs".into(), n))
+                }
                 Case::Malformed(k) => {
                     let kind = [Kind::Mac, Kind::V4, Kind::V6][k as usize];
                     for t in malformed_texts(kind) {
@@ -367,6 +439,9 @@ impl Property for P18 {
                     Case::V4Octets(_) => "ipv4",
                     Case::V6Pattern(_) => "ipv6",
                     Case::Malformed(_) => "malformed",
+                    Case::V6Shapes(_) => "ipv6",
+                    Case::MacPairs(..) => "mac",
+                    Case::V4Pairs(..) => "ipv4",
                 };
                 let kinds = if m.starts_with('[') { m.split(']').next().unwrap_or("").to_string() + "]" } else { String::new() };
                 CaseOut::viol(format!("wrong {} {}", cls, kinds), m)
@@ -375,7 +450,7 @@ impl Property for P18 {
         }
     }
     fn rule(&self) -> String {
-        "MAC: all 256 values of each of the 6 octets (others 0x00 / 0xFF / 0x5A), lower and upper case, 1- and 2-digit groups, on eth.src and eth.dst; IPv4: all 256 values of each octet on 3 backgrounds; IPv6: all 2^8 zero/non-zero group patterns x every legal rendering (uncompressed; every run of >= 1 zero groups at every position replaced by '::', including leading, trailing and all-zero; lower/upper case; with/without leading zeros); each text is assigned through the real property setter on a packet obtained from the real parser: the stored bytes must equal the reference parser's (std::net / a 6-group hex parser), nothing outside the field may change, and the text the property then displays must denote and store the same address again; malformed texts (wrong group counts, second '::', ':::', stray leading/trailing colons, oversized or non-hex groups, empty text), emitted only if the reference parser rejects them too, must raise a runtime error and leave the frame unchanged".into()
+        "MAC: all 256 values of each of the 6 octets (others 0x00 / 0xFF / 0x5A), lower and upper case, 1- and 2-digit groups, on eth.src and eth.dst; IPv4: all 256 values of each octet on 3 backgrounds; IPv6: all 2^8 zero/non-zero group patterns x every legal rendering (uncompressed; every run of >= 1 zero groups at every position replaced by '::', including leading, trailing and all-zero; lower/upper case; with/without leading zeros); each text is assigned through the real property setter on a packet obtained from the real parser: the stored bytes must equal the reference parser's (std::net / a 6-group hex parser), nothing outside the field may change, and the text the property then displays must denote and store the same address again; malformed texts (wrong group counts, second '::', ':::', stray leading/trailing colons, oversized or non-hex groups, empty text), emitted only if the reference parser rejects them too, must raise a runtime error and leave the frame unchanged; thorough adds every IPv6 address whose 8 groups are drawn from {0, 0x1, 0xabcd} (6561 addresses) in every rendering, and all 65536 values of every adjacent octet pair of a MAC (5 pairs) and of an IPv4 address (3 pairs)".into()
     }
     fn bounds(&self) -> Value {
         json!({"cases": self.cases.len()})
